@@ -637,8 +637,8 @@ def oracle_broadcast(case, R):
 
 def _bc_cases(d):
     layout = d.pick(["row_col", "row_col_c", "vec", "scalar", "vec_n"])
-    nrow = d.int(1, 3)
-    ncol = d.int(1, 3)
+    nrow = d.int(1, 4)
+    ncol = d.int(1, 6)      # (entries of one call converge at different speeds: several per call)
 
     def lev(text):
         return _level(d, LO, HI, text)
@@ -674,7 +674,7 @@ PARTS = [
     Part("kdouble", oracle_kdouble, strategy=_seeded(_kd_cases), quick=(1, 450), thorough=(8, 900)),
     Part("shape", oracle_shape, strategy=_seeded(_shape_cases), quick=(2, 400), thorough=(8, 1600)),
     Part("orderstats", oracle_orderstats, strategy=_seeded(_os_cases), quick=(3, 300), thorough=(16, 900)),
-    Part("broadcast", oracle_broadcast, strategy=_seeded(_bc_cases), quick=(1, 150), thorough=(4, 600)),
+    Part("broadcast", oracle_broadcast, strategy=_seeded(_bc_cases), quick=(2, 120), thorough=(8, 400)),
     # (1-p)^r >= c: order_stats('n') raises ValueError on the unchanged tree (reported defect)
     Part("os_n_at_r", oracle_n_at_r, strategy=_seeded(_n_at_r_cases), quick=(1, 60), thorough=(1, 500)),
 ]
